@@ -23,19 +23,21 @@ struct Scenario {
     handoff: bool,   // guards are dropped by another thread
     notifier: bool,  // a thread issues bounded spurious wake-ups
     hold_yields: usize,
+    hold_ms: u64, // the holder keeps its permit for this long (waiters must keep waiting, however long it takes)
 }
 
 impl Scenario {
     fn name(&self) -> String {
         format!(
-            "t{}p{}i{}e{}{}{}y{}",
+            "t{}p{}i{}e{}{}{}y{}h{}",
             self.threads,
             self.pairs,
             self.initial,
             self.external,
             if self.handoff { "H" } else { "o" },
             if self.notifier { "N" } else { "q" },
-            self.hold_yields
+            self.hold_yields,
+            self.hold_ms
         )
     }
 }
@@ -112,12 +114,18 @@ fn run_scenario(sc: Scenario) -> (u64, usize, isize) {
                     for _ in 0..sc.hold_yields {
                         thread::yield_now();
                     }
+                    if sc.hold_ms > 0 {
+                        thread::sleep(std::time::Duration::from_millis(sc.hold_ms));
+                    }
                     tx.send((t, guard)).unwrap();
                 } else {
                     let guard = sem.access();
                     mon.enter(t);
                     for _ in 0..sc.hold_yields {
                         thread::yield_now();
+                    }
+                    if sc.hold_ms > 0 {
+                        thread::sleep(std::time::Duration::from_millis(sc.hold_ms));
                     }
                     mon.leave(t);
                     drop(guard);
@@ -196,7 +204,7 @@ fn matrix(mode: &str) -> Vec<Scenario> {
             for &(initial, external) in &[(1isize, 0isize), (2, 0), (0, 1), (0, 2), (-1, 2), (1, 1)] {
                 for handoff in [false, true] {
                     for notifier in [false, true] {
-                        let sc = Scenario { threads, pairs, initial, external, handoff, notifier, hold_yields: 2 };
+                        let sc = Scenario { threads, pairs, initial, external, handoff, notifier, hold_yields: 2, hold_ms: 0 };
                         if mode == "quick" {
                             // a covering subset: every value of every dimension, fewer combinations
                             let k = threads * 7 + pairs * 5 + (initial + 1) as usize * 3 + external as usize + handoff as usize * 2 + notifier as usize;
@@ -210,11 +218,14 @@ fn matrix(mode: &str) -> Vec<Scenario> {
             }
         }
     }
+    // permits held for a long time: nobody else gets in meanwhile
+    v.push(Scenario { threads: 2, pairs: 1, initial: 1, external: 0, handoff: false, notifier: false, hold_yields: 0, hold_ms: 1500 });
+    v.push(Scenario { threads: 3, pairs: 1, initial: 1, external: 0, handoff: true, notifier: true, hold_yields: 0, hold_ms: 1200 });
     v
 }
 
 fn stress(threads: usize, pairs: usize, permits: isize) {
-    let sc = Scenario { threads, pairs, initial: permits, external: 0, handoff: threads % 2 == 0, notifier: true, hold_yields: 1 };
+    let sc = Scenario { threads, pairs, initial: permits, external: 0, handoff: threads % 2 == 0, notifier: true, hold_yields: 1, hold_ms: 0 };
     let (h, n, maxh) = run_scenario(sc);
     println!("TRACE stress-{} {:016x} {} maxholders={}", sc.name(), h, n, maxh);
 }
@@ -231,6 +242,9 @@ fn main() {
                 }
             }
         }
+        let sc = Scenario { threads: 3, pairs: 1, initial: 1, external: 0, handoff: false, notifier: false, hold_yields: 0, hold_ms: 1200 };
+        let (h, n, maxh) = run_scenario(sc);
+        println!("TRACE stress-{} {:016x} {} maxholders={}", sc.name(), h, n, maxh);
         println!("DONE stress");
         return;
     }
